@@ -45,6 +45,17 @@ _VALID_TEXT_OUTPUT = attribute_util.string_from_list({"Emit", "Skip"})
 
 def _valid_back_ends(attr, module_source_file):
     """Checks that `attr` holds a valid list of back end specifiers."""
+    if not attr.value.has_field("string_constant"):
+        return [
+            [
+                error.error(
+                    module_source_file,
+                    attr.value.source_location,
+                    "Attribute '{name}' must be a comma-delimited list of back end "
+                    'specifiers (like "cpp, proto")).'.format(name=attr.name.text),
+                )
+            ]
+        ]
     if not re.fullmatch(
         r"(?:\s*[a-z][a-z0-9_]*\s*(?:,\s*[a-z][a-z0-9_]*\s*)*,?)?\s*",
         attr.value.string_constant.text,
